@@ -3,9 +3,10 @@
 #  demo fails with the patch, passes without it, repo suite passes with the patch.
 # Uses patch.rebased.diff when present (the original patch.diff was written against an older HEAD).
 # Leaves the worktree /tmp/v/<ID> with the patch applied (for VERIF_REPO=/tmp/v/<ID> ./check ...).
-ID=$1; SD=${2:-/tmp/seed/$ID/out}
-[ -d "$SD" ] || SD=/verif/seeded/$ID
-W=/tmp/v/$ID
+ID=$1; ROOT=${SEEDROOT:-/tmp/seed}; SUF=${SEEDSUF:-}
+SD=${2:-$ROOT/$ID/out}
+[ -d "$SD" ] || SD=/verif/seeded/$ID$SUF
+W=/tmp/v/$ID$SUF
 unset GOFLAGS GOTOOLCHAIN; export GOPROXY=off
 P=$SD/patch.diff; [ -f $SD/patch.rebased.diff ] && P=$SD/patch.rebased.diff
 git -C /repo worktree remove --force $W 2>/dev/null; rm -rf $W
